@@ -105,6 +105,11 @@ let do_lc () =
   let c' = {rows=c.rows; cells=cells'} in
   Printf.printf "%d %d %d\n" (b2i (legalb c')) (b2i (orient_okb c c')) (b2i (trivially_feasible c))
 
+let do_ot () =
+  let p = pol_of_int (nexti ()) in let o = orient_of_int (nexti ()) in
+  let pr = match prescribed p o with None -> "forbidden" | Some None -> "keep" | Some (Some x) -> string_of_int (int_of_orient x) in
+  Printf.printf "%d %d %d | %s\n" (int_of_orient (cell_orientation_in_row p o)) (int_of_orient (opposite_row_orientation o)) (b2i (is_turn o)) pr
+
 let () =
   try while true do
     let line = input_line stdin in
@@ -117,6 +122,7 @@ let () =
          (match tag with
           | "RL" -> do_rl ()
           | "RLC" -> do_rlc ()
+          | "OT" -> do_ot ()
           | "LG" -> do_lg ()
           | "LC" -> do_lc ()
           | "PO" -> do_po ()
